@@ -42,6 +42,13 @@ def main():
         out.append("| %s | %d | %s | %s | %s | %d | %s | %d |" % (
             pid, len(th), ", ".join(partial) or "–", ", ".join(wit) or "–", lines,
             wc(os.path.join(ROOT, "harness", pid.lower() + ".py")), ", ".join(known) or "–", fixed))
+    out += ["", "### F.3 What is proved and what is run, per property (the claim texts of MANIFEST.json)", ""]
+    for p in props:
+        pid = p["id"]
+        mp = os.path.join(ROOT, "tools", "meta.d", pid + ".json")
+        if pid in ready and os.path.exists(mp):
+            m = json.load(open(mp))
+            out += ["**%s — %s.** %s" % (pid, p["title"], m["text"]), "", "*Trusted / not modelled:* " + m["note"], ""]
     out += ["", "### F.2 Seeded changes (independent adversaries, confirmed in scratch worktrees) and which check catches them", "",
             "Each change compiles, keeps the 377-test suite green, and breaks the named property only under the stated "
             "condition. `detected_by` is the outcome of `./check <prop> quick` against a scratch copy of /repo with the "
